@@ -27,7 +27,9 @@ RULE = ("kappa / overhead / probabilities of every documented family at special 
         "copies of one basis (every object alive checked against its own coefficients after every step); KAK-path gates (rzx, xx+-yy, open-"
         "controlled rotations, local conjugations of rzz/rxx/ryy/crz/cp) 4e-9 .. 5e-8 rad from a locally trivial gate; "
         "local conjugations handed over as matrix-only Gate objects other than UnitaryGate (user-defined subclasses with a fixed name), several "
-        "decomposed in one process; dyadic coefficient vectors times 2^-10 .. 2^-60 (invariants to relative accuracy); distinct by payload")
+        "decomposed in one process; dyadic coefficient vectors times 2^-10 .. 2^-60 (invariants to relative accuracy); graded neighbourhoods "
+        "(1e-3 .. 1e-8 rad, both sides) of every multiple of pi/2 in [-8pi, 8pi] for every parametrised family (KAK-path families on a thinner "
+        "grid); distinct by payload")
 ASSUMPTIONS = ["Qiskit maps rzx / xx+-yy to Weyl coordinates (theta/2,0,0) / (theta/4,theta/4,0) (checked numerically per case through the real basis)",
                "numpy float arithmetic on dyadic coefficient vectors is exact (kappa, overhead compared exactly; probabilities to 1e-12)"]
 TOL = 1e-9
@@ -178,12 +180,43 @@ def _scale_family():
                           "always_oracle": True})
 
 
+# graded offsets (rad) around a landmark angle: from "visibly different" down to a hair, both sides
+NEAR = (1e-3, 1e-4, 1e-5, 3e-6, 1e-6, 1e-7, 1e-8)
+
+
+def _landmark_family():
+    """Graded neighbourhoods of the landmark angles k*pi/2 (|angle| <= 8pi) of every parametrised family.  At a landmark a member of a
+    family coincides with (or is locally equivalent to) a gate that has a row of its own in the table -- cp(pi/2) = CS, cp(pi) = CZ,
+    crx(pi) ~ CX, rzz(pi/2) ~ CZ, rxx(k pi) ~ identity ... -- but an angle a little beside the landmark is still a member of the family
+    and its kappa is the family's closed form at THAT angle (the closed forms have slope 1..2 there: 1e-5 rad off is 1e-5 off in kappa).
+    The model driver needs ~30 ms (KAK path: ~140 ms) per basis, so only a sub-grid is compared with the model as well; the rest of the
+    grid ("oracle_only") is judged by the documented closed form / basis invariants in `oracle` alone."""
+    pi = math.pi
+    for name in c02.FAMS:
+        for k in range(-16, 17):
+            for d in NEAR:
+                for sg in (1, -1):
+                    th = k * pi / 2 + sg * d
+                    if abs(th) <= 8 * pi:
+                        with_model = k in (1, -1, 2, -3) and (d, sg) in ((1e-5, 1), (3e-6, -1), (1e-7, 1))
+                        yield ("kappa", dict({"gate": name, "params": [th], "always_oracle": True}, **({} if with_model else {"oracle_only": True})))
+    # the same for gates that go through the KAK path (a thinner grid: these are slower)
+    for i, name in enumerate(("rzx", "xx_plus_yy", "xx_minus_yy", "open:cp", "open:crx")):
+        for j, k in enumerate((1, -1, 2, -3)):
+            for d in (1e-4, -1e-5, 3e-6):
+                th = k * pi / 2 + d
+                with_model = j == i % 4 and d == -1e-5
+                yield ("kappa", dict({"gate": name, "params": [th, 0.4] if name.startswith("xx_") else [th], "always_oracle": True},
+                                     **({} if with_model else {"oracle_only": True})))
+
+
 def cases(rng, tier):
     reps = 4 if tier == "quick" else 40
     yield from _share_family()
     yield from _hair_family()
     yield from _carrier_family()
     yield from _scale_family()
+    yield from _landmark_family()
     # sub-normalised coefficient vectors (1-norm below one): kappa is the 1-norm all the same, never clamped
     for init, hist in (([Fraction(1, 4), Fraction(-1, 8)], [[Fraction(1, 8), Fraction(1, 16)]]),
                        ([Fraction(1, 4)] * 3, [[Fraction(1, 2), Fraction(-1, 4), Fraction(1, 8)], [Fraction(1, 16)] * 3]),
@@ -267,6 +300,9 @@ def _c02_kind(g):
 
 
 def model_line(kind, payload):
+    if payload.get("oracle_only"):
+        # dense deterministic grids: nothing to compare with the model (a line the driver answers at once), `oracle` decides
+        return {"op": "c02.basis", "gate": "unsupported:oracle-only", "env": [1.0, 0.0, math.sqrt(0.5)]}
     if kind == "setter":
         if payload["gate"] is None:
             return {"op": "c15.setter", "nmaps": payload["nmaps"], "init": payload["init"], "hist": payload["hist"]}
@@ -450,6 +486,8 @@ def run_real(kind, payload):
 def model_canon(kind, payload, out):
     if "driver_error" in out:
         raise RuntimeError(out["driver_error"])
+    if payload.get("oracle_only"):
+        return None
     if kind == "setter":
         if "error" in out:
             return out
@@ -487,6 +525,8 @@ def _cmp_state(r, m, tol, exact=False):
 def compare(kind, payload, real, model):
     if isinstance(real, dict) and real.get("note"):
         return real["note"]
+    if payload.get("oracle_only"):
+        return None
     if "error" in real or "error" in model:
         return None if real == model else f"real={str(real)[:200]} model={str(model)[:200]}"
     if kind == "setter":
